@@ -64,6 +64,13 @@ def signature(kind, desc):
     return kind + "|" + d
 
 
+def coarse_signature(sig):
+    """kind + outermost callee of the operand (`call:unwrap|::with_hour`), or kind + operand shape when there is no call"""
+    kind, d = sig.split("|", 1)
+    m = re.match(r"\s*([A-Za-z_:$][\w:$<>]*)\(", d)
+    return kind + "|" + (m.group(1) if m else re.sub(r"\d+", "#", d))
+
+
 def key_signature(key):
     fn, kind, rest = key.split("|", 2)
     desc = rest.rsplit("|", 1)[0]
